@@ -82,6 +82,9 @@ fn note(sig: c_int) {
     unsafe {
         if sig == SA {
             I::yielded_sa += 1;
+            // nested deliveries are complete, so every delivery done by now stored
+            // its flag before the swap that produced this yield
+            X::reported = X::deliveries_done;
         } else {
             I::yielded_other += 1;
         }
@@ -163,26 +166,47 @@ pub mod X {
     pub static mut slot_var: usize = usize::MAX; // shim word of SA's pending flag
     pub static mut closed_var: usize = usize::MAX;
     pub static mut base_var: usize = 0;
-    pub static mut lost: bool = false;
+    pub static mut reported: u32 = 0; // deliveries covered by the consumer's yields so far (consumer-outer harnesses)
+    pub static mut by_count: bool = false; // unreported = deliveries_done > reported (else: no yield at all yet)
+    pub static mut in_close: bool = false; // close() is the outer, interrupted operation
+    pub static mut asleep: bool = false; // the other thread's consumer went to sleep on the empty pipe
+    pub static mut writes_at_sleep: u32 = 0;
     pub static mut direct: bool = false;
     pub static mut action: Option<&'static libc::vshim::sync::ActionFn<'static>> = None;
     pub static mut arcs_before: usize = 0;
-    pub static mut stranded: bool = false;
     pub static mut nested_consumer_runs: u32 = 0;
     pub static mut handle: *const super::Handle = core::ptr::null();
     pub static mut delivery: *mut super::SignalDelivery<super::UnixStream, super::SignalOnly> = core::ptr::null_mut();
 }
 
-/// the consumer is about to sleep on the empty self-pipe (SEQ / NEST harnesses)
+/// Is a completed delivery of SA still unreported?
+fn unreported() -> bool {
+    unsafe {
+        if X::by_count {
+            X::deliveries_done > X::reported
+        } else {
+            X::deliveries_done > 0 && I::yielded_sa == 0
+        }
+    }
+}
+
+/// The consumer is about to sleep on the empty self-pipe (SEQ / NEST harnesses).
+/// The verdicts are asserted here: the model cuts the path of a thread that
+/// sleeps forever, so nothing after the read would be evaluated.
 fn block_hook_nest(_fd: c_int) -> bool {
     unsafe {
         I::consumer_blocked += 1;
-        if X::deliveries_done > 0 && I::yielded_sa == 0 {
-            X::lost = true;
+        if X::in_close {
+            // the consumer of another thread goes to sleep while close() is still
+            // running: remember it; it is woken only by a later write
+            X::asleep = true;
+            X::writes_at_sleep = K::fds[PAIR_WRITE as usize].write_calls;
+            return true; // (the read returns "nothing"; that iteration is abandoned)
         }
-        if X::closed_done {
-            X::stranded = true;
-        }
+        // the pipe is empty, so no wake-up byte is outstanding, and every delivery
+        // counted in deliveries_done has completed: nobody is left to write one
+        assert!(!unreported(), "C09: the consumer blocks on the self-pipe while a delivered signal is unreported and no wake-up is outstanding");
+        assert!(!X::closed_done, "C11: a consumer blocks after close() returned");
     }
     false
 }
@@ -247,6 +271,24 @@ fn interrupt_with_consumer(kind: u8, var: usize) {
     }
 }
 
+/// close() outer: the consumer of another thread runs up to two iterations at
+/// every system call of close() and at its store to the closed flag
+fn interrupt_close_with_consumer(kind: u8, var: usize) {
+    unsafe {
+        if !X::in_close || !(kind == vshim::OP_SYS || var == X::closed_var) {
+            return;
+        }
+        if vshim::any_bool() {
+            vshim::consume_interrupt();
+            X::nested_consumer_runs += 1;
+            wait_and_drain(&mut *X::delivery);
+            if !X::asleep {
+                wait_and_drain(&mut *X::delivery);
+            }
+        }
+    }
+}
+
 /// consumer outer: close() (from another thread) may land at every check of the closed flag and every system call
 fn interrupt_with_close(kind: u8, var: usize) {
     unsafe {
@@ -266,6 +308,11 @@ pub mod proofs {
     use super::*;
 
     fn arm(d: &mut SignalDelivery<UnixStream, SignalOnly>, h: &Handle) {
+        arm_with(d, h, true)
+    }
+    /// `direct`: deliveries call the action `add_signal` registered; otherwise they
+    /// go through the kernel model and the registry's real dispatcher.
+    fn arm_with(d: &mut SignalDelivery<UnixStream, SignalOnly>, h: &Handle, direct: bool) {
         unsafe {
             X::slot_var = X::base_var + SA as usize;
             X::closed_var = X::base_var + be::MAXSIG;
@@ -274,7 +321,7 @@ pub mod proofs {
             X::delivery = d;
             // the first registry Arc created by with_pipe is SA's exfiltrating action
             X::action = libc::vshim::sync::action_by_arc_id(X::arcs_before);
-            X::direct = true;
+            X::direct = direct;
             assert!(X::action.is_some(), "C09: add_signal did not register an action for the watched signal");
             vshim::HOOKS.block = block_hook_nest;
         }
@@ -287,8 +334,19 @@ pub mod proofs {
     #[kani::stub(core::fmt::write, crate::common::no_fmt_write)]
     #[kani::unwind(6)]
     pub fn c09_nest_delivery_inside_consumer() {
+        delivery_inside_consumer(true);
+    }
+    /// the same with every delivery going through the registry's dispatcher
+    #[kani::proof]
+    #[kani::stub(core::fmt::write, crate::common::no_fmt_write)]
+    #[kani::unwind(6)]
+    pub fn c09_nest_delivery_inside_consumer_dispatcher() {
+        delivery_inside_consumer(false);
+    }
+    fn delivery_inside_consumer(direct: bool) {
         let (mut d, h) = mk_delivery(false);
-        arm(&mut d, &h);
+        arm_with(&mut d, &h, direct);
+        unsafe { X::by_count = true };
         // the consumer was woken by an earlier, already reported event: one byte is pending
         let spurious: bool = kani::any();
         if spurious {
@@ -301,10 +359,11 @@ pub mod proofs {
         wait_and_drain(&mut d);
         vshim::set_mode_seq();
         let first = unsafe { I::yielded_sa };
-        if first == 0 {
+        if unreported() {
+            // the consumer keeps waiting: it must not sleep (asserted where it would), and it must obtain the signal
             wait_and_drain(&mut d);
         }
-        assert!(!unsafe { X::lost }, "C09: the consumer blocks on the self-pipe while a delivered signal is unreported and no wake-up is outstanding");
+        assert!(!unreported(), "C09: a delivered signal was not obtained by a consumer that keeps waiting and draining");
         assert!(unsafe { I::yielded_other } == 0, "C10: the iterator yielded a signal it was not asked to watch");
         assert!(unsafe { I::yielded_sa } <= unsafe { X::deliveries_done }, "C10: the iterator has yielded a signal more often than it was delivered");
         kani::cover!(spurious && vshim::interrupts_taken() == 1 && first == 0, "delivery landed after the scan had passed its slot");
@@ -319,8 +378,18 @@ pub mod proofs {
     #[kani::stub(core::fmt::write, crate::common::no_fmt_write)]
     #[kani::unwind(6)]
     pub fn c09_nest_consumer_inside_delivery() {
+        consumer_inside_delivery(true);
+    }
+    /// the same with the delivery going through the registry's dispatcher
+    #[kani::proof]
+    #[kani::stub(core::fmt::write, crate::common::no_fmt_write)]
+    #[kani::unwind(6)]
+    pub fn c09_nest_consumer_inside_delivery_dispatcher() {
+        consumer_inside_delivery(false);
+    }
+    fn consumer_inside_delivery(direct: bool) {
         let (mut d, h) = mk_delivery(false);
-        arm(&mut d, &h);
+        arm_with(&mut d, &h, direct);
         // the other thread may have been woken by an earlier, already reported event
         if kani::any() {
             unsafe { K::fds[PAIR_WRITE as usize].fill = 1 };
@@ -330,9 +399,9 @@ pub mod proofs {
         full_delivery();
         vshim::set_mode_seq();
         if unsafe { I::yielded_sa } == 0 {
+            // the consumer keeps waiting: it must not sleep (asserted where it would)
             wait_and_drain(&mut d);
         }
-        assert!(!unsafe { X::lost }, "C09: the consumer blocks on the self-pipe while a delivered signal is unreported and no wake-up is outstanding");
         assert!(unsafe { I::yielded_sa } == 1, "C09: a delivered signal was not obtained by a consumer that keeps waiting and draining");
         kani::cover!(unsafe { X::nested_consumer_runs } == 1, "a consumer iteration ran inside the delivery");
         kani::cover!(unsafe { X::nested_consumer_runs } == 0, "undisturbed delivery");
@@ -414,9 +483,45 @@ pub mod proofs {
             wait_and_drain(&mut d);
             wait_and_drain(&mut d);
         }
-        assert!(!unsafe { X::stranded }, "C11: a consumer blocks after close() returned");
+        // ("a consumer blocks after close() returned" is asserted where it would block)
         assert!(unsafe { I::yielded_sa + I::yielded_other } == 0, "C10: a signal was reported although none was delivered");
         kani::cover!(unsafe { X::closed_done } && unsafe { I::consumer_blocked } == 0, "close arrived before the consumer slept; all waits returned");
+
+        core::mem::forget((d, h));
+    }
+
+    /// C11: the consumer of another thread runs (it is woken by a byte in the pipe,
+    /// iterates, possibly goes back to sleep) in the middle of close(): when
+    /// close() returns it must not be asleep without a wake-up on its way, and
+    /// its next waits return.
+    #[kani::proof]
+    #[kani::stub(core::fmt::write, crate::common::no_fmt_write)]
+    #[kani::unwind(6)]
+    pub fn c11_nest_consumer_inside_close() {
+        let (mut d, h) = mk_delivery(false);
+        unsafe {
+            X::closed_var = X::base_var + be::MAXSIG;
+            kani::cover!(be::closed_var(&h) == X::closed_var, "the shim word of the closed flag was located");
+            X::handle = &h;
+            X::delivery = &mut d;
+            vshim::HOOKS.block = block_hook_nest;
+            vshim::HOOKS.interrupt = interrupt_close_with_consumer;
+            X::in_close = true;
+        }
+        vshim::set_mode_nest(1, 1, 0);
+        h.close();
+        vshim::set_mode_seq();
+        unsafe {
+            X::in_close = false;
+            X::closed_done = true;
+            assert!(!(X::asleep && K::fds[PAIR_WRITE as usize].write_calls == X::writes_at_sleep), "C11: close() returned while a consumer sleeps on the self-pipe and no wake-up byte was written after it fell asleep");
+        }
+        assert!(h.is_closed(), "C11: is_closed() is false after close() returned");
+        wait_and_drain(&mut d);
+        wait_and_drain(&mut d);
+        assert!(unsafe { I::yielded_sa + I::yielded_other } == 0, "C10: a signal was reported although none was delivered");
+        kani::cover!(unsafe { X::asleep }, "the consumer went to sleep while close() was running and was woken by it");
+        kani::cover!(unsafe { X::nested_consumer_runs } >= 1 && !unsafe { X::asleep }, "the consumer ran inside close() and saw the closed flag");
         core::mem::forget((d, h));
     }
 
@@ -453,5 +558,169 @@ pub mod proofs {
         kani::cover!(burst, "a burst was collapsed");
         kani::cover!(!burst, "single delivery");
         core::mem::forget((signals, h));
+    }
+
+    // ---- C10, info-carrying exfiltrator ---------------------------------------
+    const NREC: usize = 7;
+    fn raw_delivery(i: usize, code: i32, pay: u64) {
+        unsafe {
+            let mut info: siginfo_t = core::mem::zeroed();
+            info.si_signo = SA;
+            info.si_errno = i as i32; // serial number of the delivery (ghost, travels in the record)
+            info.si_code = code;
+            *((&mut info as *mut siginfo_t as *mut u8).add(16) as *mut u64) = pay;
+            deliver_info(SA, &mut info);
+        }
+    }
+    /// One batch: every record must be a faithful copy of one delivery that has
+    /// happened, later than every record obtained before (=> at most one record per
+    /// delivery, delivery order).
+    fn raw_batch(d: &mut SignalDelivery<UnixStream, WithRawSiginfo>, delivered: usize, next: &mut usize, codes: &[i32; NREC], pays: &[u64; NREC]) -> usize {
+        let mut got = 0;
+        for rec in d.pending() {
+            let serial = rec.si_errno as usize;
+            assert!(rec.si_signo == SA, "C10: the iterator yielded a signal it was not asked to watch");
+            assert!(serial < delivered, "C10: a record was yielded that no delivery so far produced");
+            assert!(serial >= *next, "C10: records of one signal came out of delivery order, or one delivery yielded two records");
+            let pay = unsafe { *((&rec as *const siginfo_t as *const u8).add(16) as *const u64) };
+            assert!(rec.si_code == codes[serial] && pay == pays[serial], "C10: a yielded record is not a faithful copy of its delivery's information");
+            *next = serial + 1;
+            got += 1;
+        }
+        got
+    }
+    /// 7 deliveries of SA (the per-signal buffer holds 5) with symbolic payloads,
+    /// an unwatched signal delivered in between, one batch taken after `early`
+    /// deliveries and one at the end.  `early` is concrete per harness: the queue
+    /// words stay concrete and only the payloads are symbolic.
+    fn raw_records(early: usize) {
+        reg::init_globals();
+        let other = ok(unsafe { signal_hook_registry::register(SB, || hit(9)) });
+        assert!(other.is_some(), "C10: registering failed");
+        let p = ok(UnixStream::pair());
+        assert!(p.is_some(), "C10: pair failed");
+        let (r, w) = p.unwrap();
+        let d = ok(SignalDelivery::with_pipe(r, w, WithRawSiginfo::default(), &[SA]));
+        assert!(d.is_some(), "C10: constructing the signal delivery failed");
+        let mut d = d.unwrap();
+        let codes: [i32; NREC] = kani::any();
+        let pays: [u64; NREC] = kani::any();
+        let mut next = 0;
+        let mut got = 0;
+        let mut i = 0;
+        while i < NREC {
+            if i == early {
+                deliver(SB); // not watched by this instance
+                got += raw_batch(&mut d, i, &mut next, &codes, &pays);
+            }
+            raw_delivery(i, codes[i], pays[i]);
+            i += 1;
+        }
+        got += raw_batch(&mut d, NREC, &mut next, &codes, &pays);
+        assert!(got <= NREC, "C10: the iterator has yielded a signal more often than it was delivered");
+        assert!(got >= 1, "C09: deliveries happened, the consumer drained, and nothing was reported");
+        assert!(raw_batch(&mut d, NREC, &mut next, &codes, &pays) == 0, "C10: a delivery was reported again by a later batch");
+        kani::cover!(early != 0 || got == 5, "burst longer than the per-signal buffer: 5 records kept");
+        kani::cover!(early != 3 || got == 7, "all seven records obtained in two batches");
+        kani::cover!(unsafe { L::n } == 1, "the unwatched signal was delivered (to its own action only)");
+        core::mem::forget(d);
+    }
+    // a delivery nested inside the consumer's first load of a batch, buffer full
+    static mut RAW_GOT: usize = 0;
+    static mut RAW_WINDOW: usize = 0; // the nested delivery lands while this many records have been obtained
+    static mut RAW_NESTED: bool = false;
+    static mut RAW_CODE: i32 = 0;
+    static mut RAW_PAY: u64 = 0;
+    fn interrupt_with_raw_delivery(_kind: u8, _var: usize) {
+        unsafe {
+            if RAW_GOT != RAW_WINDOW || !vshim::any_bool() {
+                return;
+            }
+            vshim::consume_interrupt();
+            RAW_NESTED = true;
+            let mut info: siginfo_t = core::mem::zeroed();
+            info.si_signo = SA;
+            info.si_errno = 5; // sixth delivery
+            info.si_code = RAW_CODE;
+            *((&mut info as *mut siginfo_t as *mut u8).add(16) as *mut u64) = RAW_PAY;
+            vshim::delivery_enter();
+            match X::action {
+                Some(a) => a(&info),
+                None => {}
+            }
+            vshim::delivery_exit();
+        }
+    }
+    /// Five deliveries fill the per-signal buffer; a sixth lands at any shim point
+    /// of the consumer's first load (channel words, cell, slot pointer): records
+    /// stay faithful, in delivery order, at most one per delivery.
+    #[kani::proof]
+    #[kani::stub(core::fmt::write, crate::common::no_fmt_write)]
+    #[kani::unwind(11)]
+    pub fn c10_nest_raw_delivery_inside_load() {
+        raw_delivery_inside_load(0);
+    }
+    fn raw_delivery_inside_load(window: usize) {
+        unsafe { RAW_WINDOW = window };
+        reg::init_globals();
+        let arcs_before = libc::vshim::sync::arcs_created();
+        let p = ok(UnixStream::pair());
+        assert!(p.is_some(), "C10: pair failed");
+        let (r, w) = p.unwrap();
+        let d = ok(SignalDelivery::with_pipe(r, w, WithRawSiginfo::default(), &[SA]));
+        assert!(d.is_some(), "C10: constructing the signal delivery failed");
+        let mut d = d.unwrap();
+        let mut codes: [i32; NREC] = kani::any();
+        let mut pays: [u64; NREC] = kani::any();
+        unsafe {
+            X::action = libc::vshim::sync::action_by_arc_id(arcs_before);
+            assert!(X::action.is_some(), "C10: add_signal did not register an action for the watched signal");
+            RAW_CODE = codes[5];
+            RAW_PAY = pays[5];
+            vshim::HOOKS.interrupt = interrupt_with_raw_delivery;
+        }
+        let mut i = 0;
+        while i < 5 {
+            raw_delivery(i, codes[i], pays[i]);
+            i += 1;
+        }
+        let mut next = 0;
+        let mut got = 0;
+        vshim::set_mode_nest(1, 1, 0);
+        for rec in d.pending() {
+            let serial = rec.si_errno as usize;
+            assert!(rec.si_signo == SA, "C10: the iterator yielded a signal it was not asked to watch");
+            assert!(serial < 5 || (serial == 5 && unsafe { RAW_NESTED }), "C10: a record was yielded that no delivery so far produced");
+            assert!(serial >= next, "C10: records of one signal came out of delivery order, or one delivery yielded two records");
+            let pay = unsafe { *((&rec as *const siginfo_t as *const u8).add(16) as *const u64) };
+            assert!(rec.si_code == codes[serial] && pay == pays[serial], "C10: a yielded record is not a faithful copy of its delivery's information");
+            next = serial + 1;
+            got += 1;
+            unsafe { RAW_GOT = got };
+        }
+        vshim::set_mode_seq();
+        assert!(got >= 5, "C09: a record whose delivery completed before the batch was not obtained");
+        kani::cover!(window != 1 || (unsafe { RAW_NESTED } && got == 6), "the nested delivery found the slot the consumer had just freed");
+        kani::cover!(window != 0 || (unsafe { RAW_NESTED } && got == 5), "the nested delivery found the buffer full and was discarded");
+        core::mem::forget(d);
+    }
+
+    #[kani::proof]
+    #[kani::stub(core::fmt::write, crate::common::no_fmt_write)]
+    #[kani::unwind(11)]
+    pub fn c10_seq_raw_records_burst7() {
+        raw_records(0);
+    }
+    #[kani::proof]
+    #[kani::stub(core::fmt::write, crate::common::no_fmt_write)]
+    #[kani::unwind(11)]
+    pub fn c10_seq_raw_records_3_4() {
+        raw_records(3);
+    }
+    #[kani::proof]
+    #[kani::stub(core::fmt::write, crate::common::no_fmt_write)]
+    #[kani::unwind(11)]
+    pub fn c10_seq_raw_records_6_1() {
+        raw_records(6);
     }
 }
